@@ -31,7 +31,7 @@ def run(tier):
             def a_jobs():
                 for part in range(nparts):
                     yield {"cmd": "custom", "method": "sweep", "args": {"seed": base, "part": part, "nparts": nparts},
-                           "id": "sweep%d" % part, "timeout": 600}
+                           "id": "sweep%d" % part, "timeout": 600, "must": True}
                 gen = seeds_from(base)
                 i = 0
                 while True:
